@@ -16,7 +16,7 @@
 //             (x/sync's singleflight has; go-zero's has not: then the op does nothing); logged like a "del"
 //   key:  key%1000 is the key string, key/1000 the INSTANCE (0 or 1): every primitive / cache exists
 //         twice, the two instances must not share anything.
-//         key%1000 == 0 is the EMPTY key string.
+//         key%1000 == 0 is the EMPTY key string; 1..9 are "k1".."k9"; larger ones are irregular strings (keyString).
 //   val:  -1 = the user function returns a nil value (kinds 0, 1, 3, 4)
 //   err:  0 = nil, > 0 = that error code (9 = the cache node's not-found error, 19 = the same
 //         wrapped with %w; 30 = context.Canceled, 31 = context.DeadlineExceeded themselves, 32 / 33 =
@@ -127,6 +127,12 @@ func (h storeHook) ProcessHook(next red.ProcessHook) red.ProcessHook {
 func keyString(key int64) string {
 	if key%1000 == 0 {
 		return ""
+	}
+	if n := key % 1000; n >= 10 {
+		// the many-keys families: irregular strings of different lengths (a table indexed by a weak hash of the
+		// key spreads "k1", "k2", ... perfectly; real keys are not that kind)
+		x := uint32(n) * 2654435761
+		return "k" + strconv.FormatInt(n, 10) + "/" + strconv.FormatUint(uint64(x>>(n%13)), 36)
 	}
 	return "k" + strconv.FormatInt(key%1000, 10)
 }
